@@ -239,3 +239,18 @@ def _pit_manual_plain_consumer(v):
     d = _d(v)
     return c.get('kind') == 'manual' and c.get('plain_consumer') is True and \
         'excluded-consumer' in (d.get('taints') or [])
+
+
+@predicate('refinement-shared-weight-quantizer')
+def _refine_shared_qtz(v):
+    """optimize_prec_assignment refines layer by layer; two layers that share ONE weight quantizer (a
+    convolution and the depthwise convolution behind it) are refined one after the other on the same
+    coefficient matrix, the second pass overwriting what the first one chose: channels end below
+    their original bit-width and the first layer's counts are not the chosen ones."""
+    d = _d(v)
+    if v['monitor'] in ('channel-demotion', 'layer-counts', 'chosen-not-cheapest',
+                        'chosen-counts-not-promotion'):
+        return bool(d.get('weight_quantizer_shared_with'))
+    if v['monitor'] == 'cost-increase':
+        return d.get('model_has_shared_weight_quantizer') is True
+    return False
